@@ -3,7 +3,7 @@
    earlier classes, the multiple-inheritance graph is diamond-like, and -- since fix d645930 -- no discriminator value is used
    twice inside a tree), any number of trees, any discriminator values. *)
 From Coq Require Import ZArith List Bool Lia.
-Require Import PonyV.Base.PyBase PonyV.Model.C27Inherit PonyV.Proofs.C27Proofs.
+Require Import PonyV.Base.PyBase PonyV.Model.C27Inherit PonyV.Gen.C27AttrGet PonyV.Proofs.C27Proofs.
 #[local] Open Scope nat_scope.
 
 (* entity._subclasses_, as filled class by class, is the inverse of the transitive closure of the direct-base relation;
@@ -63,6 +63,18 @@ Theorem C27_lookup_seed_except_known : forall s, valid s = true -> forall e cur 
   find_in_cache s true e cur true real = lookup_spec s e real.
 Proof. exact find_seed. Qed.
 Print Assumptions C27_lookup_seed_except_known.
+
+(* reading a reference attribute (Attribute.get) hands out the object with its creation class, whether the value was already known or
+   had to be fetched with attr.load because the owner itself was an unloaded placeholder (chains a.b.c through placeholders); the flag
+   is read from the source of Attribute.get on every run *)
+Theorem C27_attr_get : forall s, valid s = true -> forall cur seed real, family s cur real -> (seed = false -> cur = real) ->
+  attr_get_class s true cur seed real = Some real.
+Proof. exact attr_get_refines. Qed.
+Print Assumptions C27_attr_get.
+Theorem C27_attr_get_after_load : forall s, valid s = true -> forall cur real, family s cur real ->
+  attr_get_class s attr_get_loaded_value_reaches_guard cur true real = Some real.
+Proof. exact attr_get_loaded_refines. Qed.
+Print Assumptions C27_attr_get_after_load.
 
 (* non-vacuity: a two-tree schema with a diamond is accepted; sample values *)
 Example C27_nonvacuous :
